@@ -134,16 +134,16 @@ def plain_values_for(e, attr, rng, k):
     if attr == "last_focus":
         return pick(["None", "View 1"])
     if attr == "rotation":
-        return pick([30.0, -45.0, 90.0, 12.5])
+        return pick([30.0, -45.0, 90.0, 12.5, 60])
     if attr == "dip":
         # while `vertical` is set the only valid dip is 90 (documented dependency of the two attributes)
-        return pick([15.0, 45.0, -30.0, 60.0]) if cname == "Grid2D" and not e.vertical else None
+        return pick([15.0, 45.0, -30.0, 60.0, 30]) if cname == "Grid2D" and not e.vertical else None
     if attr == "origin":
         return pick([[1.0, 2.0, 3.0], [-10.5, 0.0, 99.0], [1e5, -1e5, 0.5]])
     if attr in ("u_count", "v_count", "w_count"):
         return pick([2, 4, 8]) if cname == "Octree" else pick([2, 3, 5, 7])
     if attr in ("u_cell_size", "v_cell_size", "w_cell_size"):
-        return pick([0.5, 2.0, 12.5])
+        return pick([0.5, 2.0, 12.5, 3])
     if attr in ("u_cell_delimiters", "v_cell_delimiters", "z_cell_delimiters"):
         return pick([np.array([0.0, 1.0, 3.0]), np.array([0.0, -2.0, -4.0, -8.0]), np.array([0.0, 5.0])])
     if attr == "collar":
@@ -151,11 +151,11 @@ def plain_values_for(e, attr, rng, k):
     if attr == "surveys":
         return pick([np.array([[0.0, 10.0, -80.0], [25.0, 20.0, -70.0]]), np.array([[0.0, 0.0, -90.0], [10.0, 45.0, -60.0], [30.0, 90.0, -45.0]])])
     if attr == "cost":
-        return pick([1.5, 100.0, 0.25])
+        return pick([1.5, 100.0, 0.25, 7, 120])  # integers are numbers too: what is written must be readable again
     if attr == "planning":
         return pick(["Ongoing", "Planned", "Completed", "No status"])
     if attr == "end_of_hole":
-        return pick([10.0, 55.5])
+        return pick([10.0, 55.5, 40, 99])
     if attr == "default_collocation_distance":
         return pick([0.5, 0.001])
     if attr == "vertices":
